@@ -58,7 +58,12 @@ func parsePreloadMap(s *schema.Schema, preloads map[string][]interface{}) map[st
 
 			for embedded, embeddedRelations := range s.Relationships.EmbeddedRelations {
 				for _, value := range embeddedValues(embeddedRelations) {
-					setPreloadMap(embedded, value, args)
+					// an entry made by name (with the relation's own conditions) stays, whatever the
+					// map order; the conditions given for all associations reach the relation through
+					// associationsConds
+					if _, ok := preloadMap[embedded][value]; !ok {
+						setPreloadMap(embedded, value, nil)
+					}
 				}
 			}
 		} else {
